@@ -1,15 +1,16 @@
 SPECIFICATION Spec
 CONSTANTS Weights = {1, 49, 50, 51, 100}
- MaxSigners = 3
- MaxSigs = 2
- TamperFields = {"to", "amount", "gasPrice", "gasLimit", "data", "expiration", "chainID", "type", "toName", "message"}
+ MaxSigners = 2
+ MaxSigs = 3
+ TamperFields = {"to", "amount", "gasPrice", "gasLimit", "data", "expiration", "chainID", "type", "toName", "message", "gasPayer", "version"}
  PayCfgs <- McPayCfgs
  PaySenders <- McPaySenders
- PayFields = {"gasPrice", "gasLimit", "sigs", "amount"}
+ PayFields = {"gasPrice", "sigs", "amount"}
  BoxCfgs <- McBoxCfgs
- Kinds = {}
+ Kinds = {"vote"}
+ ReconfCfgs <- McReconfQuick
  NewCfgs <- McNewCfgs
- Slices = {"sigs", "tamper"}
+ Slices = {"sigs", "tamper", "payer", "box", "kinds", "reconf"}
  Dev = {}
 VIEW View
 PROPERTIES EffectOnlyIfAuthorized CanonicalAccepted RepeatNeverHelps ForeignNeverHelps RemovalNeverHelps EncodingIrrelevant TamperFalsifies PayerBinds ThresholdExact Reconf
